@@ -13,7 +13,7 @@ RULE = (
     "case = backend x pulsetime (0, 1 ms, 0.5 s, 1 s, 5 s, 60 s, or exactly one of the stream's gaps) x stream of 1..25 heartbeats built constructively: "
     "ts_i = ts_{i-1} + d (d >= 1 ms), end_i = max(end_{i-1}, ts_i) + extra with extra = 0 about half the time (zero-length heartbeats, heartbeats starting exactly "
     "at the previous end, end instants that tie with the previous event), data from {A,B,C} with runs and alternation; 1..2 other buckets on the same store "
-    "pre-populated with events whose end instants coincide with points of the stream. Oracle: the standard loop (get(limit=1) -> heartbeat_merge -> "
+    "pre-populated with events whose end instants or start instants coincide with points of the stream. Oracle: the standard loop (get(limit=1) -> heartbeat_merge -> "
     "replace_last | insert); at the end get(-1) ascending == heartbeat_reduce(deep copy of the stream, pulsetime) as (instant, duration, data); after EACH heartbeat "
     "all events but the newest are unchanged and the other buckets' dumps are unchanged. Non-trivial = the stream contains a merge, a non-merge and an end-instant tie."
 )
@@ -41,7 +41,7 @@ def strategy(draw, tier="quick"):
             ts += draw(st.sampled_from([1, 1, 2, 500, 1000, 1000, 4999, 5000, 5001, 60000]))
         if draw(st.integers(0, 3)) == 0 and i:  # start exactly at the previous end when possible
             ts = max(ts, end)
-        extra = draw(st.sampled_from([0, 0, 0, 1, 1000, 2000]))
+        extra = draw(st.sampled_from([0, 0, 0, 1, 1000, 2000, 0, 0, 0, 1, 1000, 2000, 86_400_000, 90_000_000]))  # rarely: a heartbeat reaching a day ahead
         end = max(end, ts) + extra
         if i % runlen == 0 or draw(st.integers(0, 5)) == 0:
             label = draw(st.sampled_from("ABC"))
@@ -60,7 +60,10 @@ def strategy(draw, tier="quick"):
             h = draw(st.sampled_from(hbs))
             endp = h["ts_ms"] + h["dur_ms"]
             d = draw(st.sampled_from([0, 1000, 3000]))
-            evs.append({"ts_ms": max(0, endp - d), "dur_ms": min(d, endp), "data": "X"})
+            if draw(st.booleans()):
+                evs.append({"ts_ms": max(0, endp - d), "dur_ms": min(d, endp), "data": "X"})
+            else:  # or starting at exactly the same instant as a heartbeat of the stream
+                evs.append({"ts_ms": h["ts_ms"], "dur_ms": d, "data": "X"})
         others.append(evs)
     return {"backend": draw(st.sampled_from(stores.BACKENDS)), "p_ms": p_ms, "stream": hbs, "others": others}
 
